@@ -25,7 +25,7 @@ RULE = (
     'uniform series rendered in a DST zone is loaded and grid_time must '
     'equal the chosen instants. (c) malformed input: an interior rain row '
     'removed / displaced / duplicated with an offset; an ET row missing for '
-    'one grid step; a second load into a populated file: load must raise and '
+    'one grid step or stamped late inside its step; a second load into a populated file: load must raise and '
     'a re-load must leave every table unchanged. Non-trivial: zone with a '
     'transition within a day of the instant or an LMT-era instant (a); each '
     'malformed kind (c); distinct = SHA-1 of the case.'
@@ -239,7 +239,7 @@ def check_series(case):
 # ------------------------------------------------------------ (c) malformed
 
 KINDS = ['rain-row-removed', 'rain-row-displaced', 'rain-row-duplicated',
-         'et-row-missing', 'reload']
+         'et-row-missing', 'et-row-displaced', 'reload']
 
 
 @st.composite
@@ -328,6 +328,13 @@ def check_malformed(case):
     elif kind == 'et-row-missing':
         victim = grid_idx[case['pick'] % len(grid_idx)]
         record['et'] = [r for r in record['et'] if r[0] != victim]
+    elif kind == 'et-row-displaced':
+        # the ET record of one grid step is stamped a little late: ET is
+        # missing AT the grid time although a record lies inside the step
+        victim = grid_idx[case['pick'] % len(grid_idx)]
+        frac = abs(case['delta']) / dt
+        record['et'] = [[r[0] + frac, r[1]] if r[0] == victim else r
+                        for r in record['et']]
     connection, error = attempt(record)
     connection.close()
     if error is None:
